@@ -505,7 +505,7 @@ func (p *sshFxpOpenPacket) respond(svr *Server) responsePacket {
 		osFlags |= os.O_EXCL
 	}
 
-	mode := os.FileMode(0o644)
+	mode := os.FileMode(0o666) // before umask, like os.Create and OpenSSH
 	// Like OpenSSH, we only handle permissions here, and only when the file is being created.
 	// Otherwise, the permissions are ignored.
 	if p.Flags&sshFileXferAttrPermissions != 0 {
